@@ -572,5 +572,23 @@ def r11_pointer_escape_order(chk: Check) -> None:
         chk.undecided("C10.R11", "<discovery>", f"escape chains={n}", "fewer ~0/~1 replace chains than confirmed by hand (4)")
 
 
+def r12_all_field_lines(chk: Check) -> None:
+    chk.rule("C10.R12", "SIBLINGS-AGREE(response headers of every transport): `$response.header.X` reads `headers[x][0]`; each place that builds the header mapping of a Response (network: Response.from_any; WSGI: WSGITransport.send) keeps EVERY field line of a repeated header in wire order (`<multi-dict>.getlist(name)` per name) - a mapping built from `.items()` / one value per name keeps only the last line under WSGI, so the same app yields different link values depending on the transport", floor=2)
+    P = chk.project
+    n = 0
+    for fn in P.all_functions():
+        if isinstance(fn.node, ast.Lambda) or fn.module.relpath not in ("transport/wsgi.py", "core/transport.py", "transport/requests.py"):
+            continue
+        feeds = {unparse(kwarg(c, "headers")) for c in body_calls(fn) if last_attr(c) in ("Response", "cls") and kwarg(c, "headers") is not None}
+        for x in walk_body(fn.node):
+            if isinstance(x, ast.Assign) and len(x.targets) == 1 and isinstance(x.targets[0], ast.Name) and x.targets[0].id in feeds and isinstance(x.value, ast.DictComp):
+                n += 1
+                v = x.value
+                multi = isinstance(v.value, ast.Call) and last_attr(v.value) in ("getlist", "get_all", "getall")
+                chk.decide(multi, "C10.R12", fn, f"{fn.name}: header mapping keeps all field lines", f"`{unparse(v, 80)}` keeps one value per header name: with a header repeated in the response, `$response.header.<name>` evaluates to the last field line here and to the first one over the network", fn.loc(x))
+    if n < 2:
+        chk.undecided("C10.R12", "<discovery>", f"header mappings={n}", "fewer Response header mappings than confirmed by hand (2)")
+
+
 def rules(tier: str) -> list:  # type: ignore[type-arg]
-    return [r1_exhaustive, r2_resolvability, r3_errors, r4_status_matching, r5_evaluate, rfwd_forwarding, r6_pointer_index, r7_responses_values_total, r8_node_tables, r9_sentinel_identity, r10_memo, r11_pointer_escape_order]
+    return [r1_exhaustive, r2_resolvability, r3_errors, r4_status_matching, r5_evaluate, rfwd_forwarding, r6_pointer_index, r7_responses_values_total, r8_node_tables, r9_sentinel_identity, r10_memo, r11_pointer_escape_order, r12_all_field_lines]
